@@ -123,6 +123,18 @@ def rule_oblig(ctx, prop: str) -> RuleResult:
     need(carried, line, "For:loop-carried-config",
          "the loop body is analysed once under the configuration values that hold before the loop; a field written in the body is not invalidated for the next iteration: "
          "`Cfg.i = 0; for k in seq(0, n): x[Cfg.i] = 0.0; Cfg.i = 100` is accepted although the second iteration writes x[100]")
+    # Alloc: statements are visited LAST to FIRST and `body_eff` holds the effects of what FOLLOWS the
+    # allocation; configuration reads in it are resolved against earlier writes only later, when the earlier
+    # statements are prepended (eff_concat).  Checked right at the Alloc, an access `y[Cfg.a]` is compared with
+    # the value Cfg.a had on entry to the block (the enclosing `if Cfg.a < 4`), not with an intervening
+    # `Cfg.a = 100`.  The check has to be made (or re-made) once the block's earlier configuration writes
+    # have been substituted — deferred, or on an effect whose unresolved configuration reads are unknown.
+    ab, aline = case("Alloc")
+    cb = [n for n in ast.walk(ab) if isinstance(n, ast.Call) and last_name(n) == "check_bounds"]
+    deferred = any(isinstance(n, ast.Call) and last_name(n) in ("config_subst", "havoc_configs", "defer_check", "append") for n in ast.walk(ab))
+    need(bool(cb) and deferred, aline, "Alloc:earlier-config-writes",
+         "the accesses of a new buffer are checked at its allocation against `body_eff`, whose configuration reads have not yet seen the configuration writes that precede the allocation in the same block: "
+         "`if Cfg.a < 4 and Cfg.a >= 0: Cfg.a = 100; y: f32[4]; y[Cfg.a] = 0.0` is accepted (the write before the allocation is ignored), while the same program with the allocation first is rejected")
     # WindowStmt: the declared extent of a window made in the body is an obligation of its own
     # (accesses through it are translated to the underlying buffer, which only bounds them by the buffer)
     wb, wline = case("WindowStmt")
